@@ -261,6 +261,7 @@ class _FmrObserver:
         th, ok = self._real.IKinSpace(*a, **k)
         try:
             self._run.raw_free_max = max(self._run.raw_free_max, float(np.max(np.abs(th))))
+            self._run.raw_free_theta = np.array(th, float).reshape(-1).copy()
         except Exception:
             pass
         return th, ok
@@ -269,6 +270,7 @@ class _FmrObserver:
 class IKRun:
     sim_seconds = None
     raw_free_max = 0.0
+    raw_free_theta = None
 
     def __init__(self, trace, keep_log=False):
         self.trace = trace
@@ -395,6 +397,7 @@ class IKRun:
         m["am"].random = rnd
         m["am"].fmr = _FmrObserver(m["fmr"], self)
         self.raw_free_max = 0.0
+        self.raw_free_theta = None
         exc = None
         ret = None
         info = {}
@@ -452,6 +455,14 @@ class IKRun:
                 self.probes["move_stationary_internal_ik"] += 1
                 if draws:
                     self.probes["move_stationary_used_restarts"] += 1
+                # move(stationary=True) keeps the tool in place by an internal limit-respecting IK with restarts: whether
+                # that solve succeeded (state = solution) or failed (reset), the arm must be coherent afterwards
+                if exc is None:
+                    dev = self.coherent()
+                    if dev > 1e-7:
+                        raise Violation("K-fail-coherent", "move(stationary=True): the internal IK left the arm incoherent: reported "
+                                        "tool pose differs from FK(stored joints) by %.3e" % dev,
+                                        {"op": "move", "path": "constrained", "check": True})
         try:
             th_ = np.asarray(arm._theta, float).reshape(-1)
             inl = bool(np.all(th_ >= np.asarray(arm.joint_mins, float) - 1e-12) and np.all(th_ <= np.asarray(arm.joint_maxs, float) + 1e-12))
@@ -518,8 +529,24 @@ class IKRun:
                     elif vi > 1:
                         P["reached_only_under_mixed_nearzero_reading"] += 1
                     break
+            # the library's own reading of the angular error (its MatrixLog6 cannot see rotations below ~1.5e-8 rad): a
+            # success that its own measure confirms but an exact log does not is the known blind-zone finding, a success
+            # that even its own measure refutes is something else
+            fm = _load()["fmr"]
+            try:
+                # (on the unconstrained path the kernel judged its own, not yet wrapped, output)
+                th_judged = self.raw_free_theta if (path == "free" and self.raw_free_theta is not None
+                                                    and len(self.raw_free_theta) == len(theta)) else theta
+                lib_w = fm.se3ToVec(fm.MatrixLog6(np.array(fm.TransInv(self.fk(th_judged)) @ G)))[0:3]
+                lib_ang = float(np.linalg.norm(lib_w))
+            except Exception:
+                lib_ang = float("nan")
+            rb = self.reach()
+            excess = max(ang - rot_tol, (min(lin) - pos_tol) / max(rb[1] if rb else 10.0, 1.0), 0.0)
             detail = dict(sig, rot_tol=rot_tol, pos_tol=pos_tol, ang=ang, lin=min(lin), restarts=restarts,
-                          reachable=info["reachable"], raw_free_max=self.raw_free_max)
+                          reachable=info["reachable"], raw_free_max=self.raw_free_max,
+                          lib_ang_ok=bool(lib_ang <= rot_tol * (1 + 1e-6) + 1e-12),
+                          wrap_explains=bool(excess <= self.raw_free_max * 4e-15))
             if self.raw_free_max >= 1e4:
                 P["free_solver_returned_huge_angles"] += 1
             if info["reachable"] is False:
@@ -562,7 +589,11 @@ class IKRun:
                 P["success_on_restart_%d" % min(restarts, 6)] += 1
                 P["success_on_restart"] += 1
         else:
-            if info["pre_coherent"]:
+            # The limit-respecting path with restarts resets the arm (FK of the zero vector) and IKFree ends with an FK of
+            # what it returns: both must leave a coherent arm whatever it was before.  The two paths that leave the
+            # state untouched (check=False, unconstrained) can only be blamed if the arm was coherent when they started.
+            touches_state = (path == "constrained" and check) or path == "ikfree"
+            if info["pre_coherent"] or touches_state:
                 dev = self.coherent()
                 if dev > 1e-7:
                     stored = np.array(arm._theta, float).reshape(-1)
@@ -586,10 +617,18 @@ class IKRun:
             if ok_pre:
                 P["local_clause_applicable"] += 1
                 if not success:
+                    # where did the failed solve stop?  The blind-zone finding explains a stagnation a hair's breadth from
+                    # the goal (rotation invisible to the log, position error = lever x that rotation) and nothing else.
+                    try:
+                        a_f, l_f = pose_errors(self.fk(theta), G)
+                        rb = self.reach()
+                        blind = bool(a_f <= 1e-7 and min(l_f) <= 3e-7 * max(rb[1] if rb else 10.0, 1.0))
+                    except Exception:
+                        blind = False
                     raise Violation("K-local", "%s (%s path) started %.4f rad (2-norm) from an in-limit, non-singular solution "
                                     "(sigma_min %.3f, margin %.3f rad) and reported failure (max_iters=%d, tolerances %.1e/%.1e)" % (
                                         op, path, ok_pre[0], ok_pre[1], ok_pre[2], st.get("max_iters", 30), pos_tol, rot_tol),
-                                    dict(sig, max_iters=st.get("max_iters", 30), min_tol=min(pos_tol, rot_tol)))
+                                    dict(sig, max_iters=st.get("max_iters", 30), min_tol=min(pos_tol, rot_tol), blind_explains=blind))
         # reach probes / classes
         if pos_tol > rot_tol:
             P["tol_pos_gt_rot"] += 1
@@ -951,10 +990,17 @@ def warmup():
                 theirs = np.array(arm.FK(th.copy()).gTM(), float)
                 if np.max(np.abs(mine - theirs)) > 1e-5:
                     raise HarnessError("independent FK disagrees with Arm.FK on %s by %g" % (f, np.max(np.abs(mine - theirs))))
-            g = arm.FK(np.array(arm.joint_maxs) * 0.3)
-            arm.IK(g, np.zeros(arm.num_dof))
-            arm.IK(g, np.zeros(arm.num_dof), protect=True)
-            arm.IKFree(g, np.array(arm.joint_maxs) * 0.25, [0])
+            _load()["am"].random = SimRandom(source=lambda: [0.5] * 8)
+            try:
+                g = arm.FK(np.array(arm.joint_maxs) * 0.3)
+                for call in (lambda: arm.IK(g, np.zeros(arm.num_dof)), lambda: arm.IK(g, np.zeros(arm.num_dof), protect=True),
+                             lambda: arm.IKFree(g, np.array(arm.joint_maxs) * 0.25, [0])):
+                    try:
+                        call()          # only to compile the kernels; what the calls do is judged by the runs
+                    except Exception:
+                        pass
+            finally:
+                _load()["am"].random = _load()["real_random"]
         finally:
             sys.stdout = old
 
@@ -1085,5 +1131,6 @@ def signature(trace, violation):
     last = trace["steps"][-1] if trace["steps"] else {}
     return {"clause": violation.clause, "op": d.get("op", last.get("op")), "path": d.get("path"), "ang": d.get("ang"),
             "rot_tol": d.get("rot_tol"), "raw_free_max": d.get("raw_free_max"), "lin": d.get("lin"), "min_tol": d.get("min_tol"),
+            "lib_ang_ok": d.get("lib_ang_ok"), "wrap_explains": d.get("wrap_explains"), "blind_explains": d.get("blind_explains"),
             "arm": d.get("arm"), "exception": d.get("exception"), "check": last.get("check"),
             "n_steps": len(trace["steps"]), "reachable": d.get("reachable")}
